@@ -56,6 +56,7 @@ type vfEnv struct {
 	dialFail int                        // the next n UDP() calls fail although the policy allows
 	hookFail int                        // the next n Hook() calls fail
 	sendFail int                        // the next n SendMessage() calls fail
+	slowClose int                       // the next n logger.Close() calls take 10 ms (a slow event logger)
 	curSid   uint32                     // session id of the message the receive loop is feeding
 	lastNew  uint32                     // session id of the last logger.New (owner of the next socket)
 	socks    []*vfConn
@@ -195,8 +196,16 @@ func (l vfLogger) New(sessionID uint32, reqAddr string) {
 
 func (l vfLogger) Close(sessionID uint32, err error) {
 	l.env.mu.Lock()
-	defer l.env.mu.Unlock()
 	l.env.add(vfEv{K: "logclose", Sid: sessionID, Ok: err == nil})
+	slow := l.env.slowClose > 0
+	if slow {
+		l.env.slowClose--
+	}
+	l.env.mu.Unlock()
+	if slow {
+		// the caller is between part 1 of CloseWithErr (closed flag set, socket closed) and the table delete
+		time.Sleep(10 * time.Millisecond)
+	}
 }
 
 // ---- UDPConn
